@@ -483,7 +483,7 @@ class C10(TreeSpec):
         "(NaN price on an open position, trade at NaN/zero price via allocate and via transact, custom-price trade without bid/offer data, fixed-income child under a market-value parent, duplicate tickers); an exception is legitimate iff the reference model shows one of the enumerated conditions at that instant, and then it is required; "
         "distinct = plan digest; non-trivial = >= 1 trade and >= 2 ticks, or an ill-formed situation that actually arose"
     )
-    ILL = ("nan_open", "custom_nobidoffer", "fi_child", "transact_nan")
+    ILL = ("nan_open", "custom_nobidoffer", "fi_child", "transact_nan", "nan_coupon")
 
     def gen(self, r, tier, i):
         k = i % 6
@@ -499,7 +499,7 @@ class C10(TreeSpec):
         if ill:
             res["info"]["ill_" + ill] = 1
             f = res["fired"]
-            if f.get("open_nan_raise") or f.get("ill_custom_price") or f.get("ill_fi_child") or f.get("ill_transact_nan"):
+            if f.get("open_nan_raise") or f.get("ill_custom_price") or f.get("ill_fi_child") or f.get("ill_transact_nan") or f.get("open_nan_coupon_raise"):
                 res["nontrivial"] = True
                 res["info"]["ill_arose_" + ill] = 1
         if plan["driver"] == "engine":
@@ -1484,8 +1484,11 @@ def _gen_flow_stack(r, ids, depth=0):
             ids[0] += 1
             ret = None if r.random() < 0.3 else [r.random() < 0.65 for _ in range(r.randint(1, 5))]
             s = {"a": "Spy", "id": sid, "ret": ret}
-            if r.random() < 0.25:
+            kk = r.random()
+            if kk < 0.25:
                 s["run_always"] = True
+            elif kk < 0.35:
+                s["run_always"] = "off"  # carries the marker attribute, switched off
             out.append(s)
         elif k < 0.62:
             inner = {"a": "AlgoStack", "algos": _gen_flow_stack(r, ids, depth + 1)}
@@ -1873,6 +1876,15 @@ class C18(Spec):
             # a fixed-income book: every security type (notional accounting decides the weights)
             plan = drive_engine.gen_fi_plan(r, tier)
             plan["cfg"]["obs_eod"] = False
+            # hedge instruments held in the book too (their notional is zero by definition, their market value is not)
+            hedges = [x["name"] for _p, x in drive_engine.trees.securities(plan["tree"]) if x["cls"] in ("HedgeSecurity", "CouponPayingHedgeSecurity")]
+            tw = plan["extra"]["tw"]
+            for h in hedges:
+                if h not in tw["cols"]:
+                    tw["cols"].append(h)
+                    for row in tw["data"]:
+                        row.append(r.choice([0.1, -0.1, 0.05, None]))
+                    plan["fired"]["hedge_instrument_held"] = 1
         else:
             plan = drive_engine.gen_engine_plan(r, "mixed", tier)
         for _p, s in drive_engine.trees.strategies(plan["tree"]):
@@ -2481,6 +2493,8 @@ class C15(Spec):
             else:
                 pre.append({"a": "Wrap", "inner": {"a": "WeighSpecified", "weights": wvec(sel if len(sel) >= 2 else full[:2] if len(full) >= 2 else full)}})
                 inner = {"a": a, "args": [r.choice([0.05, 0.1, 0.2])], "kw": win()}
+                if r.random() < 0.5:
+                    inner["kw"]["annualization_factor"] = r.choice([52, 12, 365])  # (weekly / monthly / calendar-day data)
             branches.append({"a": "AlgoStack", "algos": pre + [{"a": "Wrap", "inner": inner}]})
         # trading tail: a live portfolio that drifts, LimitDeltas / PTE_Rebalance judged against it
         tailw = wvec(full)
@@ -2504,7 +2518,7 @@ class C15(Spec):
             src_w = {"a": "WeighTarget", "args": [nm]} if r.random() < 0.67 else {"a": "Wrap", "inner": {"a": "WeighSpecified", "weights": tailw}}
             tail += [src_w, {"a": "Wrap", "inner": {"a": "LimitDeltas", "kw": {"limit": lim}}}, {"a": "Rebalance"}]
         else:
-            tail += [{"a": "Or", "algos": [{"a": "RunOnDate", "dates": [dates[warm]]}, {"a": "Wrap", "inner": {"a": "PTE_Rebalance", "args": [r.choice([0.002, 0.01, 0.03]), "@" + nmw], "kw": win()}}]}, {"a": "WeighSpecified", "weights": tailw}, {"a": "Rebalance"}]
+            tail += [{"a": "Or", "algos": [{"a": "RunOnDate", "dates": [dates[warm]]}, {"a": "Wrap", "inner": {"a": "PTE_Rebalance", "args": [r.choice([0.002, 0.01, 0.03]), "@" + nmw], "kw": dict(win(), **({"annualization_factor": r.choice([52, 12, 365])} if r.random() < 0.5 else {}))}}]}, {"a": "WeighSpecified", "weights": tailw}, {"a": "Rebalance"}]
         root = {"k": "S", "name": "top", "cls": "Strategy", "fi": False, "how": "list", "children": [], "algos": [{"a": "RunAfterDate", "date": dates[warm - 1]}, {"a": "Or", "algos": branches + [{"a": "AlgoStack", "algos": tail}]}]}
         cfg = {"integer": r.random() < 0.5, "comm": None, "capital": 1e6, "fi": False, "obs_price": False, "obs_eod": False, "profile": "weigh"}
         return {"driver": "engine", "cfg": cfg, "tree": root, "feed": fspec, "extra": extra, "fired": fired, "seed": r.randrange(1 << 30)}
